@@ -180,6 +180,7 @@ typedef struct {
   uint8_t  local_addr[16];
   int      probe_like;
   int      rule_idx;
+  int      moved_by_list_change; /* its query was re-sent because the server list was replaced */
 } sim_tx_t;
 
 static sim_tx_t sim_tx[SIM_MAXTX];
